@@ -104,6 +104,10 @@ func main() {
 
 const emptyPoolsEvery = 29
 
+// currentCase is the index of the case being executed (helpers that alternate between two behaviours use its parity,
+// so that a case replayed alone behaves as it did in the run)
+var currentCase int
+
 // Each runs fn for every case index of this child (or just -only), journalling the
 // index first and turning an escaping panic into a violation of clause "panic".
 func (c *Ctx) Each(fn func(idx int, r *gen.R)) {
@@ -135,6 +139,7 @@ func (c *Ctx) one(idx int, fn func(idx int, r *gen.R)) {
 	if c.Testing {
 		mode = "@test"
 	}
+	currentCase = idx
 	fn(idx, gen.NewR(c.Seed, c.Prop, c.Sub+mode, idx))
 }
 
